@@ -225,3 +225,7 @@ def st_history(be, hiN):
 
 FACETS.append(Facet('np/state-histories', f_history, strategy=lambda t: st_history('np', 4), examples={'quick': 800, 'thorough': 40000}, shards={'quick': 2, 'thorough': 8}))
 FACETS.append(Facet('torch/state-histories', f_history, strategy=lambda t: st_history('torch', 4), examples={'quick': 300, 'thorough': 10000}, shards={'quick': 1, 'thorough': 4}, backend='torch'))
+
+
+from checks import large as _large
+FACETS.append(Facet('np/large-N-entropy', _large.f_entropy_large, strategy=lambda t: _large.st_big(), examples={'quick': 40, 'thorough': 1500}, shards={'quick': 1, 'thorough': 4}))
